@@ -83,6 +83,14 @@ def true_model(shape: Sequence[int], rtrue: int, seed: int, style: str = "normal
     rng = np.random.default_rng([11, seed])
     if style == "uniform":
         fm = [rng.uniform(0.1, 1.0, (n, rtrue)) for n in shape]
+    elif style == "block":  # components with disjoint supports in every mode that has room: block-diagonal model, exact zeros
+        fm = []
+        for n in shape:
+            M = rng.standard_normal((n, rtrue))
+            if n >= rtrue:
+                owner = np.concatenate([np.arange(rtrue), rng.integers(0, rtrue, n - rtrue)])[rng.permutation(n)]
+                M = np.where(owner[:, None] == np.arange(rtrue)[None, :], M, 0.0)
+            fm.append(M)
     else:
         fm = [rng.standard_normal((n, rtrue)) for n in shape]
     w = np.array([float(2.0 ** (-k)) * 3.0 for k in range(rtrue)])
@@ -110,11 +118,30 @@ def make_tensor(A: np.ndarray) -> ttb.tensor:
     return ttb.tensor(F(A), tuple(int(s) for s in A.shape))
 
 
-def make_sptensor(A: np.ndarray, seed: int, order: str = "random") -> ttb.sptensor:
-    """sptensor of the nonzeros of A stored in F order / reversed / randomly permuted."""
+def make_sptensor(A: np.ndarray, seed: int, order: str = "random", dtype: str = "float64", state: str = "plain") -> ttb.sptensor:
+    """sptensor of the nonzeros of A stored in F order / reversed / randomly permuted, values held in `dtype`.
+    state: "plain"; "explicit-zeros" (a few zero-valued entries stored as well, as S*0 or the constructor leave them);
+    "np-shape" (shape entries numpy.int64, as operations on grown tensors leave them); "from-tensor" (tensor.to_sptensor());
+    "halved-doubled" ((S * 0.5) * 2, the result of arithmetic).  Falls back to "plain" when a path does not give A back."""
+    if state in ("from-tensor", "halved-doubled") and dtype == "float64" and np.any(A != 0):
+        try:
+            if state == "from-tensor":
+                S = make_tensor(A).to_sptensor()
+            else:
+                S = (make_sptensor(A * 0.5, seed, order) * 2.0)
+            if isinstance(S, ttb.sptensor) and tuple(int(n) for n in S.shape) == tuple(A.shape) and np.array_equal(
+                    ref.den_sptensor(S), np.asarray(A, dtype=float)):
+                return S
+        except Exception:  # noqa: BLE001
+            pass
     subs = np.argwhere(A != 0)
     if subs.shape[0] == 0:
         return ttb.sptensor(shape=tuple(int(s) for s in A.shape))
+    if state == "explicit-zeros":
+        zer = np.argwhere(A == 0)
+        if zer.shape[0]:
+            rng0 = np.random.default_rng([71, seed])
+            subs = np.vstack([subs, zer[rng0.permutation(zer.shape[0])[: max(1, min(3, zer.shape[0]))]]])
     # F order: first index fastest
     key = np.lexsort(tuple(subs[:, k] for k in range(subs.shape[1])))
     subs = subs[key]
@@ -123,8 +150,9 @@ def make_sptensor(A: np.ndarray, seed: int, order: str = "random") -> ttb.sptens
     elif order == "random":
         rng = np.random.default_rng([17, seed])
         subs = subs[rng.permutation(subs.shape[0])]
-    vals = A[tuple(subs.T)].reshape(-1, 1).astype(float)
-    return ttb.sptensor(np.ascontiguousarray(subs).astype(int), vals, tuple(int(s) for s in A.shape))
+    vals = A[tuple(subs.T)].reshape(-1, 1).astype(np.dtype(dtype))
+    shape = tuple(np.int64(s) for s in A.shape) if state == "np-shape" else tuple(int(s) for s in A.shape)
+    return ttb.sptensor(np.ascontiguousarray(subs).astype(int), vals, shape)
 
 
 def sparsify(A: np.ndarray, density: float, seed: int) -> np.ndarray:
@@ -135,7 +163,7 @@ def sparsify(A: np.ndarray, density: float, seed: int) -> np.ndarray:
     return np.where(mask, A, 0.0)
 
 
-def make_ttensor_data(shape, R, seed, noise) -> ttb.ttensor:
+def make_ttensor_data(shape, R, seed, noise, scale=1.0) -> ttb.ttensor:
     """Tucker-format data: core = superdiagonal(3*2^-k) + noise*E of size r_k in [R, n_k], generic factors."""
     rng = np.random.default_rng([23, seed])
     cshape = [int(rng.integers(min(R, n), n + 1)) for n in shape]
@@ -143,11 +171,77 @@ def make_ttensor_data(shape, R, seed, noise) -> ttb.ttensor:
     for k in range(min(cshape)):
         core[(k,) * len(cshape)] += 3.0 * 2.0 ** (-k)
     fm = [rng.standard_normal((n, c)) for n, c in zip(shape, cshape)]
-    return ttb.ttensor(ttb.tensor(F(core), tuple(cshape)), [F(f) for f in fm])
+    return ttb.ttensor(ttb.tensor(F(core * scale), tuple(cshape)), [F(f) for f in fm])
 
 
 def make_ktensor(weights, fm) -> ttb.ktensor:
     return ttb.ktensor([F(f) for f in fm], np.array(weights, dtype=float))
+
+
+# integer dtypes the data may be held in: (lowest, highest value generated); "full" magnitude uses the whole span
+INT_RANGE = {"int64": (-10**6, 10**6), "int32": (-10**6, 10**6), "int16": (-30000, 30000), "int8": (-128, 127),
+             "uint8": (0, 255), "uint16": (0, 60000)}
+MAGS = {"small": 3, "medium": 100, "full": 10**9}
+
+
+def int_data(shape, rng, dtype, mag, lowrank, rtrue=2):
+    """integer-valued array (float64 holder of the values) within the range of `dtype`: uniform integers, or a rounded
+    low-rank model plus integer noise (so that the mode spectra decay)."""
+    lo, hi = INT_RANGE[dtype]
+    m = min(MAGS[mag], hi)
+    lo = max(lo, -m)
+    if lowrank:
+        if lo < 0:
+            fm = [rng.standard_normal((n, rtrue)) for n in shape]
+        else:
+            fm = [rng.uniform(0.1, 1.0, (n, rtrue)) for n in shape]
+        A = ref.den_kruskal(np.array([1.0 / (1 + k) for k in range(rtrue)]), fm)
+        A = A / max(float(np.max(np.abs(A))), 1e-300) * m
+        A = np.round(A + (0.05 * m + 0.6) * rng.standard_normal(tuple(shape)))
+        A = np.clip(A, lo, m)
+    else:
+        A = rng.integers(lo, m + 1, tuple(shape)).astype(float)
+    if not A.any():
+        A.flat[0] = 1.0
+    return A
+
+
+def hold(A, dtype="float64", prov="ctor", seed=0):
+    """tensor holding the values of A in `dtype`, reached through a public path: constructor from an F-ordered / C-ordered
+    array, permute of the transposed tensor, growth by assignment, conversion from sptensor, an elementwise product.
+    Returns (tensor, provenance actually used): when a path does not reproduce A exactly (judged by other properties)
+    the constructor is used."""
+    A = np.asarray(A, dtype=float)
+    shape = tuple(int(n) for n in A.shape)
+    dt = np.dtype(dtype)
+    Ad = A.astype(dt)
+    X = None
+    try:
+        if prov == "c-order":
+            X = ttb.tensor(np.ascontiguousarray(Ad))
+        elif prov == "permuted" and A.ndim >= 2:
+            p = list(range(A.ndim))[::-1]
+            X = ttb.tensor(np.asfortranarray(np.transpose(Ad, p))).permute(np.array(p))
+        elif prov == "grown" and dtype == "float64":
+            from .. import gen
+
+            X = gen.build_tensor(dict(shape=list(shape), data=A.flatten(order="F").tolist(), prov="grown"))
+        elif prov == "from-sparse" and dtype == "float64" and A.any():
+            X = make_sptensor(A, seed, "random").to_tensor()
+        elif prov == "doubled" and dtype == "float64":
+            X = ttb.tensor(F(A * 0.5), shape) * 2.0
+    except Exception:  # noqa: BLE001
+        X = None
+    if X is not None:
+        ok = isinstance(X, ttb.tensor) and tuple(int(n) for n in X.shape) == shape
+        ok = ok and np.asarray(X.data).dtype == dt and np.array_equal(np.asarray(X.data).astype(float), A)
+        if ok:
+            return X, prov
+    return ttb.tensor(np.asfortranarray(Ad), shape), "ctor"
+
+
+PROVS_F64 = ["ctor", "ctor", "c-order", "permuted", "grown", "from-sparse", "doubled"]
+PROVS_ANY = ["ctor", "ctor", "c-order", "permuted"]
 
 
 def build_data(case: Dict[str, Any]):
@@ -158,27 +252,92 @@ def build_data(case: Dict[str, Any]):
     seed = int(case["data_seed"])
     noise = float(case["noise"])
     style = case.get("style", "normal")
+    scale = float(case.get("scale", 1.0))  # data magnitude: every relation checked is scale-free
+    dtype = case.get("dtype", "float64")
     if holder == "ttensor":
-        X = make_ttensor_data(shape, int(case["R"]), seed, max(noise, 1e-2))
+        X = make_ttensor_data(shape, int(case["R"]), seed, max(noise, 1e-2), scale)
         return X, ref.den(X)
-    A = dense_problem(shape, int(case["rtrue"]), seed, noise, style)
+    if dtype in INT_RANGE and holder in ("tensor", "sptensor"):
+        # integer-valued data for an integer holder: the model + noise scaled to the magnitude class and rounded
+        lo, hi = INT_RANGE[dtype]
+        m = min(MAGS[case.get("mag", "medium")], hi)
+        A = dense_problem(shape, int(case["rtrue"]), seed, noise, "uniform" if lo == 0 else style)
+        A = np.clip(np.round(A / max(float(np.max(np.abs(A))), 1e-300) * m), max(lo, -m), m)
+    else:
+        dtype = "float64"
+        A = dense_problem(shape, int(case["rtrue"]), seed, noise, style) * scale
     if holder == "tensor":
-        return make_tensor(A), A
+        X, _ = hold(A, dtype, case.get("prov", "ctor"), seed)
+        return X, A
     if holder == "sptensor":
         A = sparsify(A, float(case.get("density", 1.0)), seed)
-        return make_sptensor(A, seed, case.get("stored", "random")), A
+        return make_sptensor(A, seed, case.get("stored", "random"), dtype, case.get("sp_state", "plain")), A
     if holder == "sumtensor":
         # dense noise part + Kruskal part (+ optionally a sparse part)
         w, fm = true_model(shape, int(case["rtrue"]), seed, style)
+        w = w * scale
         K = make_ktensor(w, fm)
         E = A - ref.den_kruskal(w, fm)
         parts: List[Any] = [make_tensor(E), K]
         if case.get("sum_sparse"):
-            Sp = sparsify(dense_problem(shape, 1, seed + 1, 0.5, style), 0.5, seed)
+            Sp = sparsify(dense_problem(shape, 1, seed + 1, 0.5, style), 0.5, seed) * scale
             parts.append(make_sptensor(Sp, seed))
         X = ttb.sumtensor(parts, copy=False)
         return X, sum(ref.den(p) for p in parts)
     raise ValueError(holder)
+
+
+SCALES = [1.0, 1.0, 1.0, 1e-6, 1e-3, 1e4, 1e6]  # data magnitudes; the checked relations are scale-free (relative bounds)
+
+
+def _option_strategies():
+    from hypothesis import strategies as st
+
+    stoptols = st.one_of(st.sampled_from([0.0, 0.0, 1e-4, 1e-2, 0.5]),
+                         st.integers(-48, 0).map(lambda k: float(10.0 ** (k / 4.0))))  # 0 and 1e-12 .. 1, log-uniform
+    printitns = st.sampled_from([0, 0, 1, 1, 2, 3, -1, -5, 7, 1000])  # <= 0 silent; larger than any iteration count
+    return stoptols, printitns
+
+
+STOPTOLS, PRINTITNS = _option_strategies()
+
+STRUCTURED_INITS = ("disjoint", "orth", "zeros", "repeat", "intvalued")
+
+
+def helmert(n: int) -> np.ndarray:
+    """n x n integer matrix with exactly orthogonal columns: ones, then (1,..,1,-k,0,..,0)."""
+    M = np.zeros((n, n))
+    M[:, 0] = 1.0
+    for k in range(1, n):
+        M[:k, k] = 1.0
+        M[k, k] = -float(k)
+    return M
+
+
+def structured_factor(rng, n: int, R: int, kind: str) -> np.ndarray:
+    """n x R factor (n >= R) with linearly independent columns and the named structure.
+    disjoint: columns with disjoint supports (small integers: the Gram matrix is exactly diagonal);
+    orth: dense integer columns that are exactly orthogonal (Helmert contrasts, rows permuted, columns scaled);
+    zeros: generic entries, 30 % exact zeros, one all-zero row when n > R;
+    intvalued: small integers."""
+    if n < R:
+        return rng.standard_normal((n, R))
+    if kind == "disjoint":
+        owner = np.concatenate([np.arange(R), rng.integers(0, R, n - R)])[rng.permutation(n)]
+        vals = rng.integers(1, 4, (n, R)) * rng.choice([-1.0, 1.0], (n, R))
+        return np.where(owner[:, None] == np.arange(R)[None, :], vals, 0.0)
+    if kind == "orth":
+        M = helmert(n)[:, rng.permutation(n)[:R]] * rng.integers(1, 4, R)[None, :]
+        return M[rng.permutation(n), :]
+    if kind == "zeros":
+        M = np.where(rng.uniform(size=(n, R)) < 0.3, 0.0, rng.standard_normal((n, R)))
+        M[np.arange(R), np.arange(R)] = 2.0 + np.arange(R)
+        if n > R:
+            M[n - 1, :] = 0.0
+        return M[rng.permutation(n), :]
+    M = rng.integers(-3, 4, (n, R)).astype(float)
+    M[np.arange(R), np.arange(R)] += 7.0
+    return M
 
 
 def build_init(case: Dict[str, Any]):
@@ -191,6 +350,20 @@ def build_init(case: Dict[str, Any]):
     rng = np.random.default_rng([29, int(case["init_seed"])])
     if kind == "uniform":
         fm = [rng.uniform(0.0, 1.0, (n, R)) for n in shape]
+    elif kind in STRUCTURED_INITS:
+        # structured guesses (boundary class): every mode is structured with probability 0.6, generic otherwise, so that exact
+        # zeros in one Gram matrix meet non-zero entries in the others; a repeated column only in one mode of an
+        # N >= 3 problem (the coefficient matrices stay non-singular: Schur product with a positive definite Gram matrix)
+        rep_mode = int(rng.integers(0, len(shape)))
+        fm = []
+        for k, n in enumerate(shape):
+            M = rng.standard_normal((n, R))
+            if kind == "repeat":
+                if k == rep_mode and len(shape) >= 3 and R >= 2:
+                    M[:, 1] = M[:, 0]
+            elif rng.uniform() < 0.6 or len(shape) == 1:
+                M = structured_factor(rng, n, R, kind)
+            fm.append(M)
     else:
         fm = [rng.standard_normal((n, R)) for n in shape]
     if case.get("init_weights") == "nonunit":
